@@ -22,7 +22,13 @@ The pinned tree violated C14 in thirteen ways; eleven are repaired in /repo (com
 9a26786 cd355fe 32b7b46 fe63c88 c107b3b bc70af1 4af356a b3b14ce) and the model follows them. Two
 classes of constructible objects have no text form in the grammar and no repair (`Dev.noTextForm`,
 `Dev.regexText`): the property at full strength is still false (`C14_full_false`), what is proved
-excludes exactly those. -/
+excludes exactly those.
+
+Round 3: general theorems by induction over trees of any size — `prec_correct_general`, `eqn_roundtrip_partial`,
+`script_roundtrip_partial`, `eqn_roundtrip_spec`, `expr_filter_roundtrip_partial`, `C14_shallow_holds` (C14 for all
+deviation-free objects whose filters are nested one level), the `Bracket` flag fragment (`bracket_flags_general`,
+`bracket_box_exact`; two more known findings), and the parenthesisation/precedence rules tied to the source
+(`JPText/GenTie.lean`). The finite boxes of rounds 1–2 are kept. -/
 namespace OjgVerif.C14
 open OjgVerif OjgVerif.JPText
 
@@ -397,6 +403,42 @@ example : ExprOKF [.root, .child [108, 105, 115, 116],
   · subst hg; exact Or.inr ⟨_, by decide +kernel, rfl⟩
   · subst hg; exact Or.inl rfl
   · subst hg; exact Or.inr ⟨_, by decide +kernel, rfl⟩
+
+/-! ## C14 restricted to shallow objects: proved -/
+
+/-- `C14_full` with exactly two restrictions: no deviation named by Spec.lean (`devsExpr`/`devsEqn` empty: the
+known findings), and SHALLOW: the equation of every filter fragment is constructible, deviation-free and has
+no filter inside a path operand and no list inside a list (filters nested one level). -/
+def C14_shallow : Prop :=
+  (∀ (br : Bool) (x : Expr), Frag.okL x = true → devsExpr br x = [] →
+    (∀ t, Frag.filter t ∈ x → ∃ e : Eqn, e.ok = true ∧ devsEqn e = [] ∧ e.shallow = true ∧ t = e.build) →
+    roundTripsExpr br x = true) ∧
+  (∀ e : Eqn, e.ok = true → devsEqn e = [] → e.shallow = true →
+    roundTripsEqn e = true ∧ roundTripsScript e = true ∧ roundTripsFilter e = true)
+
+/-- **C14 holds for all shallow objects of any size** (while `C14_full_false`: at full strength it is false
+because of the named deviations). Filter-free expressions are the case where the third hypothesis is vacuous. -/
+theorem C14_shallow_holds : C14_shallow :=
+  ⟨fun br x hok hdev hf => roundTripsExpr_filter_spec br x hok hdev hf,
+   fun e hok hdev hsh => eqn_roundtrip_spec e hok hdev hsh⟩
+
+/-- filters nested TWO levels are outside the general theorems (they are covered by the correspondence run); a
+witness that the model round-trips one: `$.a[?(@.b[?(@.c == 1 || !(@.e < 2.5))].d > 2)]`, both text forms
+(kernel evaluation) -/
+theorem nested_two_levels_witness :
+    roundTripsExpr false [.root, .child [97], (Eqn.bin Gen.JpOps.op_gt
+        (.un Gen.JpOps.op_get (.val (.expr [.at, .child [98], (Eqn.bin Gen.JpOps.op_or
+            (.bin Gen.JpOps.op_eq (.un Gen.JpOps.op_get (.val (.expr [.at, .child [99]]))) (.val (.int 1)))
+            (.un Gen.JpOps.op_not (.bin Gen.JpOps.op_lt (.un Gen.JpOps.op_get (.val (.expr [.at, .child [101]])))
+              (.val (.flt [50, 46, 53]))))).filter, .child [100]])))
+        (.val (.int 2))).filter] = true ∧
+    roundTripsExpr true [.root, .child [97], (Eqn.bin Gen.JpOps.op_gt
+        (.un Gen.JpOps.op_get (.val (.expr [.at, .child [98], (Eqn.bin Gen.JpOps.op_or
+            (.bin Gen.JpOps.op_eq (.un Gen.JpOps.op_get (.val (.expr [.at, .child [99]]))) (.val (.int 1)))
+            (.un Gen.JpOps.op_not (.bin Gen.JpOps.op_lt (.un Gen.JpOps.op_get (.val (.expr [.at, .child [101]])))
+              (.val (.flt [50, 46, 53]))))).filter, .child [100]])))
+        (.val (.int 2))).filter] = true := by
+  decide +kernel
 
 /-! ## API-built expressions with the `Bracket` flag fragment (`jp.B()`) -/
 
